@@ -205,6 +205,29 @@ def rule_f(ctx, R):
         if flds and flds[0] in d["fields_of"].get(l_, ()):
             return (l_, flds[0])
         return (l_, None)
+    def merged_node(op, depth=0):
+        """value_node, looking through a local that each arm of a branch assigns (as a tuple `(a, b) = if c {(x, y)} else {(x', y')}` or
+        plainly): when every arm stores the SAME value (a copy / move / clone of one value computed before the branch), that value."""
+        if op["k"] not in ("copy", "move") or depth > 4:
+            return None
+        r = vs.deep_root(op)
+        if r.kind == "local":
+            l_ = r.base[1]
+            defs = [x for x in vs.defs.get(l_, []) if not s.blocks[x[1]]["cleanup"]]
+            if len(defs) > 1 and not vs.partial.get(l_) and l_ not in vs.mut_borrowed and all(x[0] == "stmt" for x in defs):
+                rvs = [x[3] for x in defs]
+                idx = r.path[0] if r.path and isinstance(r.path[0], str) and r.path[0].isdigit() else None
+                ops_ = None
+                if idx is not None and len(r.path) == 1 and all(rv_["k"] == "aggregate" and rv_.get("agg") == "tuple" and int(idx) < len(rv_["ops"]) for rv_ in rvs):
+                    ops_ = [rv_["ops"][int(idx)] for rv_ in rvs]
+                elif not r.path and all(rv_["k"] == "use" for rv_ in rvs):
+                    ops_ = [rv_["op"] for rv_ in rvs]
+                if ops_ is not None:
+                    nodes = set(merged_node(o_, depth + 1) for o_ in ops_)
+                    if len(nodes) == 1 and None not in nodes:
+                        return nodes.pop()
+                    return None
+        return value_node(op)
     # when the result is built on several paths and each field is a copy of ONE value computed before the paths split, the field is
     # the same whichever path runs: its dependences are those of that value, not of the copies made under the branch
     shared = {}
@@ -226,7 +249,12 @@ def rule_f(ctx, R):
             if fld in shared:
                 srcs = d["close"](("n", shared[fld][0], shared[fld][1]))
             elif op["k"] in ("copy", "move"):
-                srcs = d["close"](("n", op["place"]["l"], None))
+                mn_ = merged_node(op)
+                vn_ = value_node(op)
+                if mn_ is not None and mn_ != vn_:
+                    srcs = d["close"](("n", mn_[0], mn_[1]))      # every arm stores this one value
+                else:
+                    srcs = d["close"](("n", op["place"]["l"], None))
             flags = sorted(set(x[1] for x in srcs if x[0] == "flag"))
             ctx.ob("C17-f", "result field `%s` does not depend on a settings flag" % fld, not flags, s.path, "flag-dependence:" + fld,
                    where=pat.where(st), detail="field %s depends on settings.%s" % (fld, flags))
